@@ -7,8 +7,10 @@
 (* TLC compares with CharClass!InClass on: every rune up to U+024F, every  *)
 (* breakpoint +-1 of the specification's and of the implementation's       *)
 (* interval lists (both functions are piecewise constant between them, so  *)
-(* agreement there is agreement everywhere), and - thorough tier - on      *)
-(* every rune of the record's `full` range list.                           *)
+(* agreement there is agreement everywhere; under IgnoreCase this holds    *)
+(* for the runes without case, and every rune with a case-fold orbit is    *)
+(* compared individually), and - thorough tier - on every rune of the      *)
+(* record's `full` range list.                                             *)
 (***************************************************************************)
 EXTENDS ObsBase, CharClass
 
@@ -16,12 +18,19 @@ VARIABLES c, j
 
 InReal(x, rs) == InRs(x, rs)
 
+\* the nearest rune without case at or beyond x in direction d
+RECURSIVE Caseless(_,_)
+Caseless(x, d) == IF x < 0 \/ x > MaxRune \/ ~IsCased(x) THEN x ELSE Caseless(x + d, d)
+
 CheckRec(r) ==
   LET realEnds == UNION {{r.real[k][1], r.real[k][2]} : k \in 1..Len(r.real)}
       bps == Breaks(r.cls, r.dia) \cup realEnds
       dom0 == (0..591) \cup UNION {{b - 1, b, b + 1} : b \in bps} \cup UNION {(r.full[k][1])..(r.full[k][2]) : k \in 1..Len(r.full)}
-      \* under IgnoreCase only where case folding has one agreed meaning: ASCII and simple upper/lower pairs
-      dom == {x \in dom0 : x >= 0 /\ x <= MaxRune /\ (r.ic => (x < 128 \/ IsSimplePair(x) \/ (ToLower(x) = x /\ ToUpper(x) = x)))}
+      \* under IgnoreCase the specification's function is piecewise constant only on the caseless runes: every cased
+      \* rune is compared, and next to every breakpoint the nearest caseless rune on either side
+      cased == IF r.ic THEN {OrbitTab[k][1] : k \in 1..Len(OrbitTab)} \cup {304, 305} ELSE {}
+      near == IF r.ic THEN UNION {{Caseless(b + 1, 1), Caseless(b - 1, -1)} : b \in bps} ELSE {}
+      dom == {x \in dom0 \cup cased \cup near : x >= 0 /\ x <= MaxRune}
       bad == {x \in dom : InClass(x, r.cls, r.ic, r.dia) # InReal(x, r.real)}
       paths == {k \in 1..Len(r.paths) : r.paths[k].diff # <<>>}
   IN /\ (bad # {} => Report("BAD", [id |-> r.id, rule |-> "class.membership", n |-> Cardinality(bad),
